@@ -4,6 +4,12 @@ def ib(profile, quick, thorough, blob=0, ops=50, extra=None):
     return {"args": ["ib", profile, "--blob", str(blob), "--ops", str(ops)] + (extra or []),
             "cases": {"quick": quick, "thorough": thorough}}
 
+def fsi(cmd, workload, blob, quick_stride, thorough_stride, thorough_extra=None):
+    return {"args": ["fsinst.py", cmd, "--workload", workload] + (["--blob"] if blob else []),
+            "cases": {"quick": 0, "thorough": 0},
+            "tier_args": {"quick": ["--stride", str(quick_stride)], "thorough": ["--stride", str(thorough_stride)] + (thorough_extra or [])},
+            "timeout": {"quick": 1500, "thorough": 7200}}
+
 def ia(which, quick, thorough):
     return {"args": ["ia", which], "cases": {"quick": quick, "thorough": thorough}}
 
@@ -59,4 +65,80 @@ PROPS = {
         "c02_snapshot_stable_point / _scan: for every reachable state, every snapshot S (0 < S <= counter, in particular S = visible) and EVERY later operation sequence with GC watermarks <= S, point reads and scans (all bounds, all next/next_back words, optional overlay) at S are unchanged. Proved on the very step function (applyOp) the driver executes; the hypotheses are shown necessary by counterexamples.",
         "snapshot isolation rests on super-version pinning; S = 0 (no snapshot) excluded; reopen releases snapshots",
         "7 C02"),
+    "C03": entry(
+        "Range and prefix scans are exact, ordered and consistent from both ends",
+        [ia("merge", 2000, 100000), ia("mvcc", 2000, 100000), ia("small", 300, 5000), ia("runs", 600, 20000), ib("scan", 400, 20000, blob=2, ops=60)],
+        "I-A: Merger and MvccStream under random next/next_back words vs model; prefix_to_range exhaustive over all prefixes of length <= 3 over {00,01,fe,ff} + random, with a membership oracle; Run::range_overlap_indexes for all bound shapes; "
+        "I-B: scans with bounds drawn from the key set (incl./excl./unbounded, inverted, empty) and random F/B words at the newest and at held snapshots, over layouts with memtables, several L0 runs, multi-table runs, block size 1..4096; every scan compared with the model AND with the ordered-map oracle; len/is_empty/first/last after every op; non-trivial = >= 1 version-changing compaction and >= 2 flushes",
+        TECH,
+        "c03_scan_both_ends/_exact/_sorted_unique: for every state, snapshot, bounds, overlay and every word of next/next_back calls the scan equals consuming from both ends the ascending list of newest-visible non-tombstone entries inside the bounds; c03_prefix: prefix range = starts_with for ALL byte strings; merger_both_ends, mvcc_both_ends: the two stream machines equal their specifications for every interleaving.",
+        "table-internal iteration (blocks, index) is C12's subject: here a table is its entry list; hypotheses IsSource/DistinctAcross of the scan sources are invariants evaluated on every observed state (inv=)",
+        "7 C03"),
+    "C05": entry(
+        "A crash at any instant recovers to the state before or after the interrupted op",
+        [fsi("proto", "std", False, 1, 1), fsi("proto", "std", True, 1, 1), fsi("crash", "short", False, 3, 1, ["--thorough"]), fsi("crash", "short", True, 3, 1, ["--thorough"])],
+        "I-C: (1) strace of a 16-operation workload (create, flushes, major, leveled, drop_range, reopen, ingest, clear; standard and key-value-separated): every operation's file-system actions abstracted to the model alphabet must be accepted by the Lean automaton acceptsFrom and be completed when the call returns; "
+        "(2) the process is killed before every k-th mutating syscall (quick: stride 3 plus all rename / unlink / directory-fsync boundaries; thorough: every boundary, plus garbled and torn unsynced tails) and up to four adversarial persistence outcomes per point (unsynced data lost, unsynced directory entries lost, both) are opened with the real Config::open and compared with the logical states before / after the interrupted op; non-trivial = distinct (op, phase, outcome, result) classes",
+        "Lean 4 theorem on the install-protocol automaton (crash atomicity for every accepted action sequence, every prefix, every POSIX crash outcome) + strace-based conformance of the real syscalls + crash-image enumeration opened by the real recovery code",
+        "c05_crash_atomic / c05_history_crash_atomic / c05_completed_only_new: for every action sequence accepted by the install-protocol guard, every prefix and every adversarial crash outcome, recovery finds the old or the new version complete; after completion only the new one. The guard is evaluated on the syscalls the real engine issues.",
+        "partial by nature: kernel / file-system semantics are the model's adversarial POSIX; sfa container and tempfile are observed, not modelled; crash DURING recovery's own cleanup covered by c20_cleanup_safe only",
+        "7 C05"),
+    "C16": entry(
+        "A failed flush or compaction changes nothing and can simply be retried",
+        [fsi("fault", "std", False, 4, 1), fsi("fault", "short", True, 3, 1)],
+        "I-C(3): every k-th file-system syscall (create/open, write, fsync, rename, unlink, mkdir) issued inside an operation of the workload is failed once with EIO (writes/creates also ENOSPC) by strace fault injection; in the same process the harness then checks: result is Err or Ok, reads unchanged after an Err, no table left hidden, the retried call succeeds, reads equal the ordered-map oracle at every later quiescent point, final flush + reopen equals the oracle; non-trivial = distinct (op, syscall kind, outcome) classes",
+        "Lean 4 theorems on the install-protocol automaton with failing actions + syscall fault enumeration against the real engine",
+        "c16_failure_atomic / c16_retry_crash_atomic: stopping an accepted install at any action leaves (every crash outcome of) the state recoverable to old or new, before the rename to old only, with the old version's files untouched, and an accepted retry is again atomic.",
+        "partial: only errors injectable at the kernel boundary; in-memory unchangedness (history not extended, tables un-hidden) is observed by the harness, not proved",
+        "7 C16"),
+    "C20": entry(
+        "Obsolete files are reclaimed and nothing live is ever deleted",
+        [ib("drop", 300, 10000, blob=2, ops=60), ib("snap", 300, 10000, blob=2, ops=60), ib("reopen", 200, 5000, blob=2, ops=50), fsi("proto", "std", False, 1, 1)],
+        "I-B: after every op the directory listing (tables/, blobs/, v<N>) is compared with the files named by the live history entries: a named file missing = live file deleted; an unnamed file present = not reclaimed (quiescent moments only; watermarks up to the newest snapshot so old entries get collected; reopen at many positions); "
+        "I-C: every unlink the engine issues must be accepted by the automaton (never a file the durable version names)",
+        TECH,
+        "c20_live_files_never_unlinked: in an accepted sequence no unlink hits a file the new version names, and none hits a file of the old version before the new one is durable; c20_cleanup_safe: deleting files the recovered version does not name never affects recovery.",
+        "liveness (files disappear when the last reference drops) rests on Rust Drop semantics, observed not proved",
+        "7 C20"),
+    "C01": entry(
+        "Point reads return the most recent write, whatever maintenance has happened",
+        [ia("cstream", 2000, 100000), ia("runs", 600, 20000), ia("small", 300, 5000), ib("core", 600, 30000, blob=2, ops=60)],
+        "I-A: CompactionStream, optimize_runs, Run::get_for_key / range lookups, Memtable insert/get vs model; "
+        "I-B: histories over {insert, remove, batch, rotate, flush(wm), Leveled(l0 1-4, target 1-4096 B, wm), major, MoveDown, PullDown, reopen-after-flush} x configs (block size 1..4096, restart interval, hash ratio, partitioned/pinned index+filter, bloom none/bpk/fpr, cache 0..8 MiB, fd table none/1/2/64), standard and key-value-separated; after EVERY op the real tree's full state (history, memtables, every table's contents and metadata) is compared with the Lean model's prediction, every observed Leveled choice is checked against Admissible and every cut against cutsBetweenKeys, and get / contains_key / size_of of every key are compared with an ordered-map oracle; non-trivial = >= 1 version-changing compaction and >= 2 flushes",
+        TECH,
+        "c01_point_read_refines_map: for EVERY history of the alphabet whose observed decisions are admissible (okStep: Admissible choice, cuts between distinct user keys, fresh ids) and every snapshot at or above the counter, get returns the last write (value, or absent after a delete); corollaries: a deleted key never reappears, an overwritten value never resurfaces; c01_good_invariant: sortedness, run disjointness, metadata and read order hold in every reachable state.",
+        "leveled size scoring is not modelled: its choice is an observed input constrained by Admissible (checked on every observed choice); bloom filter / hash index / block layout are C11/C12's subject (a table is its entry list here); proved for standard trees (blob trees: validated by correspondence, C08)",
+        "7 C01"),
+    "C06": entry(
+        "Background flushes and compactions never change what readers see or lose a write",
+        [{"args": ["id"], "cases": {"quick": 120, "thorough": 6000}}, {"args": ["id", "--inflight"], "cases": {"quick": 120, "thorough": 6000}}, {"args": ["id", "--blob", "1"], "cases": {"quick": 60, "thorough": 3000}}],
+        "I-D: thread programs (1 writer 12-42 writes, flusher 3-8 flushes, 1-3 Leveled compactors, 1-2 readers at published snapshots) run under a cooperative scheduler at feature-gated scheduling points OUTSIDE the engine's lock regions: one thread runs from point to point, so every execution is a seed-reproducible sequence of segments with at most one critical section each; uniform and PCT-style priority schedules; after every segment the committed label (write / rotate / flushCommit / merge / move) is inferred from the state difference and replayed through the Lean model with full state comparison (atomic mode); inflight mode additionally pre-empts the writer between drawing its seqno and inserting (readers follow P2). Oracles: reads at published snapshots = last write below the snapshot; no Err, no panic; hidden set empty at the end; every acknowledged write present; reopen = flushed state. non-trivial = distinct executed label sequences",
+        "Lean 4 theorems over all interleavings of thread programs at critical-section granularity + controlled-schedule replay of the real engine with step validation against the model",
+        "c06_any_schedule_refines_map, c06_reads_at_published_snapshots_stable, c06_acknowledged_writes_present, c06_schedule_independent, c06_flush_commit_discard_sound, c06_final_reopen: for every interleaving (shuffle preserving program order) of the threads' labels that is an admissible run, reads equal the ordered-map model, published snapshots are stable, acknowledged writes survive, and the result does not depend on the schedule.",
+        "atomicity granularity = the engine's critical sections; memory-model-level races inside crossbeam-skiplist / quick_cache and OS scheduling are not exhibited by the model; major_compact / drop_range concurrent with compactors are serialised by an exclusive lock and exercised sequentially (I-B), not in I-D",
+        "7 C06"),
+    "C10": entry(
+        "Corrupted bytes on disk are reported, never served as data",
+        [{"args": ["flip"], "cases": {"quick": 4, "thorough": 40}, "tier_args": {"thorough": ["--thorough"]}}, ia("frames", 600, 20000)],
+        "fault enumeration: for small generated trees (standard and key-value-separated, block size 16/64/4096) EVERY byte of every persisted file (tables, blob files, v<N>, current) is flipped (quick: bit 0; thorough: 4 patterns) and every file is truncated at (quick: every 7th; thorough: every) length, then the tree is opened afresh with an empty cache and forward scan, reverse scan, point reads of the whole key universe and a scan at an older snapshot are compared with the unmodified answers: must be identical or an error (panics counted separately); I-A frames: 17 mutation kinds on real block frames / 14 on blob frames decoded by the real readers vs the model with real xxh3 values; non-trivial = distinct (file, offset, pattern) positions",
+        "Lean 4 theorems on the frame formats with abstract hash functions (collision witness in the statement) + exhaustive byte-flip / truncation enumeration on real files opened by the real code",
+        "c10_block_single_byte / c10_blob_single_byte / c10_version_file_covered / c10_truncation_detected / c10_type_confusion_detected: any single-byte change of a block or blob frame or of the version file is rejected, yields the original, or exhibits an explicit hash collision; truncations and block-type confusion are rejected.",
+        "partial: xxh3 is a parameter (no collision-freedom axiom; the disjunct is in the statements); sfa TOC/trailer and the table's region map are exercised by the enumeration, not modelled; blob frame fields seqno / lengths are not covered by a checksum (harmless: value bytes are)",
+        "7 C10"),
+    "C11": entry(
+        "Physical tuning and cache sharing never change logical results",
+        [ia("filters", 600, 20000), ia("tables", 300, 10000), ib("all", 300, 10000, blob=2, ops=50)],
+        "I-A: Bloom filters (bpk / fpr, k 1..34, adversarial hash values incl. wrap-around) and in-block hash indexes built by the real builders vs model (bits, probes, buckets, read plans); tables written with every combination of block size, restart interval, hash ratio, partitioned index / filter, bloom policy, pinning; I-B: histories under randomly drawn physical configurations (block size 1..4096, restart 1/2/16, hash ratio 0/0.75/8, partitioning, pinning, bloom none/bpk/fpr, cache 0 / 1 KiB / 8 MiB, descriptor table none/1/2/64) all compared with the same configuration-free model and ordered-map oracle",
+        TECH,
+        "c11_bloom_no_false_negative (every m > 0, k, all 64-bit hashes incl. wrap-around; builder and reader loops proved to probe the same positions), c11_hash_index_sound / _notFound_absent / _found_unique, c11_point_read_absent_sound, c11_cache_key_injective; the logical model has no physical parameters, so agreement of every configuration with it is agreement between configurations.",
+        "quick_cache itself and the f32 bucket / bit-count arithmetic are not modelled (taken from the run); trees sharing one Cache concurrently are exercised by cache key injectivity (proved) rather than by a multi-tree run",
+        "7 C11"),
+    "C12": entry(
+        "A table returns every item written to it through every read path",
+        [ia("tables", 600, 30000)],
+        "I-A: generated sorted multi-version streams (version slabs straddling block boundaries, tombstones, weak tombstones, long shared prefixes, entries larger than a block, single-entry tables) x writer settings (block size 1..4096, restart interval 1/2/16, hash ratio 0/0.75/8, partitioned index / filter, bloom none/bpk/fpr, global seqno 0/7, pinning) written by the real Writer, recovered by Table::recover; full scan, >= 30 point probes (absent keys between present ones, seqnos around every version), >= 8 ranged scans with random bounds and F/B words, metadata, per-block item counts, index end keys and (hash ratio 0) the BYTES of every data block compared with the model; independent C12 oracle on the real results; non-trivial = tables with >= 2 data blocks",
+        TECH,
+        "c12_scan, c12_index, c12_point (incl. version slabs spanning blocks; the seek rule is proved right), c12_get (global seqno shift, early exit, any filter without false negatives), c12_range_both_ends (all bounds, all words), c12_meta (streaming bookkeeping = declarative), c12_filter_complete, c12_block_seek (restart-head jump), c12_block_codec_roundtrip (varint, full / truncated entries, binary index, trailer) — for every stream, block size and restart interval.",
+        "the byte-level backward / seek decoder and the two-level index are validated by correspondence only; c12_range_both_ends assumes seqno < u64::MAX (the real code skips a block ending in (key, u64::MAX) on a lower-bound seek; unreachable with real sequence numbers)",
+        "7 C12"),
 }
